@@ -81,6 +81,25 @@ pub struct Report {
     pub all_numbers: Vec<f64>,
 }
 
+/// every labelled number of a report as a map (table entries keyed by table index and key), so
+/// that two reports can be compared entry by entry with a missing entry read as zero (the by-key
+/// tables only list non-zero carriers / sources)
+pub fn report_map(r: &Report) -> BTreeMap<String, Vec<f64>> {
+    let mut m = BTreeMap::new();
+    for (k, v) in &r.scalars {
+        m.insert(format!("s:{}", k), v.clone());
+    }
+    for (k, v) in &r.demand {
+        m.insert(format!("d:{}", k), v.map(|x| vec![x]).unwrap_or_default());
+    }
+    for (i, (_, entries)) in r.lists.iter().enumerate() {
+        for (k, v) in entries {
+            m.insert(format!("t{}:{}", i, k), v.clone());
+        }
+    }
+    m
+}
+
 pub fn parse_report(txt: &str) -> Report {
     let mut r = Report::default();
     let mut section = String::new();
